@@ -104,7 +104,7 @@ def in_slice(scn):
         return False
     if any(r.get("kind", "plain") not in ("plain", "close", "expect", "http10", "http10_ka", "body", "chunked", "head") or r.get("headers") for r in reqs):
         return False
-    if set(scn["adj"]) - {"channel_request_lookahead", "send_bytes", "outbuf_high_watermark"}:
+    if set(scn["adj"]) - {"channel_request_lookahead", "send_bytes", "outbuf_high_watermark", "log_socket_errors"}:
         return False
     for v in scn.get("apps", {}).values():
         if set(v) - {"chunks", "cl", "write", "raise_at", "raise"} or v.get("cl", "exact") not in ("exact", "none", "larger") or "sync" in v.get("chunks", []) or "peer" in v.get("chunks", []):
